@@ -714,3 +714,60 @@ def _drop_default_account(tree):
                     c.keywords = [k for k in c.keywords if k.arg != 'default_account_id']
                     return len(c.keywords) < before
     return False
+
+
+@PROP.obligation('C10.sign-every-key-every-input', canaries=[
+    mut.Canary('a key that already signed ends the loop over the supplied keys', 'transactions', lambda tree: _continue_to_break(tree, 'already signed')),
+    mut.Canary('an input that received no new signature ends the loop over the inputs', 'transactions', lambda tree: _continue_to_break(tree, 'not n_signs')),
+])
+def sign_every_key_every_input(ctx):
+    """"... exactly when at least m distinct cosigners have signed, in any order": Transaction.sign(keys) offers every supplied key to every
+    input. Its loop over the inputs (`for tid in tids`) and its loop over the keys of one input contain no `break` of their own - a key
+    that already signed, or an input that got nothing new, is skipped with `continue`. With `break`, sign(k0) followed by
+    sign([k0, k1]) leaves every input with one signature while sign([k1, k0]) completes it."""
+    q = 'transactions:Transaction.sign'
+    fn = ctx.repo.func(q)
+    outer = [l for l in walk_no_nested(fn) if isinstance(l, ast.For) and norm(l.iter) == 'tids']
+    if len(outer) != 1:
+        ctx.undecided('Transaction.sign: loop over the inputs (`for tid in tids`) not found')
+    inner = [l for l in ast.walk(outer[0]) if isinstance(l, ast.For) and l is not outer[0] and norm(l.iter) == 'tid_keys']
+    if len(inner) != 1:
+        ctx.undecided('Transaction.sign: loop over the keys of one input (`for key in tid_keys`) not found')
+
+    def own_breaks(loop):
+        out = []
+
+        def visit(stmts):
+            for s_ in stmts:
+                if isinstance(s_, ast.Break):
+                    out.append(s_)
+                elif isinstance(s_, (ast.For, ast.While)):
+                    visit(s_.orelse)            # a nested loop owns its breaks
+                elif isinstance(s_, (ast.If, ast.With, ast.Try)):
+                    for field in ('body', 'orelse', 'finalbody'):
+                        visit(getattr(s_, field, []) or [])
+                    for h in getattr(s_, 'handlers', []) or []:
+                        visit(h.body)
+        visit(loop.body)
+        return out
+    n = 0
+    for loop, what, why in ((outer[0], 'the inputs', 'after sign(k, index_n=0) a later sign(k) never reaches the other inputs'),
+                            (inner[0], 'the supplied keys', 'sign(k0) followed by sign([k0, k1]) never tries k1: the spend stays one signature short although two cosigners signed')):
+        n += 1
+        br = own_breaks(loop)
+        ctx.saw('loop over %s: %d break statement(s) of its own' % (what, len(br)))
+        for b in br:
+            ctx.violate(q, 'the loop over %s is left with `break` (line %d): the remaining %s are not signed' % (what, b.lineno, what), b, why)
+    ctx.floor(n, 2, 'loops')
+
+
+def _continue_to_break(tree, marker):
+    for cls in tree.body:
+        if isinstance(cls, ast.ClassDef) and cls.name == 'Transaction':
+            for f in cls.body:
+                if isinstance(f, ast.FunctionDef) and f.name == 'sign':
+                    for i_ in ast.walk(f):
+                        if isinstance(i_, ast.If) and marker in norm(i_) and i_.body and isinstance(i_.body[-1], ast.Continue):
+                            i_.body[-1] = ast.Break()
+                            return True
+    return False
